@@ -5,3 +5,4 @@ CONSTANTS
   MaxLen = 6
   TypeDepth = 5
   Alphabet = {65, 49, 48, 95, 45, 46, 101, 43, 32, 233, 69}
+  Prefix <- PfxNone
